@@ -287,4 +287,99 @@ theorem dump_ok (round5 : α → α) (net : Ktn (Pt α)) (hinv : Inv net) (hn : 
   simp only [dumpNetwork, h0, hmins, hany1, hany2, e1, e2, e3, e4, e5]
   rfl
 
+
+/-! ### the round trip on the repaired specification -/
+
+/-- reading back the files written for a coherent network -/
+theorem read_dumped (round5 : α → α) (net : Ktn (Pt α)) (hinv : Inv net)
+    (k : Nat) (hk : 1 ≤ k) (hdn : ∀ nd ∈ net.nodes, nd.data.coords.length = k)
+    (hde : ∀ e ∈ net.edges, e.data.coords.length = k) :
+    readNetwork ReadSpec.repaired (dumpedFiles round5 net) = .ok (roundNet round5 net) := by
+  have hlen : net.nodes.length = net.nMin := by
+    have := congrArg List.length hinv.1; simpa using this
+  obtain ⟨c1, l1⟩ := load2' (net.nodes.map (nodeRow round5)) 2 (by omega)
+    (by intro r hr; simp only [List.mem_map] at hr; obtain ⟨nd, _, rfl⟩ := hr; rfl)
+  obtain ⟨c2, l2⟩ := load2' (net.nodes.map (fun nd => coordRow nd.data)) k hk
+    (by intro r hr; simp only [List.mem_map] at hr; obtain ⟨nd, hnd, rfl⟩ := hr
+        simp [coordRow, hdn nd hnd])
+  obtain ⟨c3, l3⟩ := load2' (net.edges.map (edgeRow round5)) 3 (by omega)
+    (by intro r hr; simp only [List.mem_map] at hr; obtain ⟨e, _, rfl⟩ := hr; rfl)
+  obtain ⟨c4, l4⟩ := load2' (net.edges.map (fun e => coordRow e.data)) k hk
+    (by intro r hr; simp only [List.mem_map] at hr; obtain ⟨e, he, rfl⟩ := hr
+        simp [coordRow, hde e he])
+  have l5 := loadPairs_dump (α := α) net.pairlist
+  have hnodes : mapE (readNode ReadSpec.repaired (.d2 (net.nodes.map (nodeRow round5)) c1)
+      (.d2 (net.nodes.map (fun nd => coordRow nd.data)) c2)) (List.range net.nodes.length) =
+      .ok (net.nodes.map (fun nd => (nd.label, roundPt round5 nd.data))) := by
+    apply mapE_range
+    intro i hi
+    exact readNode_dump round5 net.nodes c1 c2 i hi
+  have hedges : mapE (readEdge ReadSpec.repaired (.d2 (net.edges.map (edgeRow round5)) c3)
+      (.d2 (net.edges.map (fun e => coordRow e.data)) c4)) (List.range net.edges.length) =
+      .ok (net.edges.map (fun e => (e.u, e.v, roundPt round5 e.data))) := by
+    apply mapE_range
+    intro i hi
+    exact readEdge_dump round5 net.edges c3 c4 i hi
+  -- the graph
+  have hfold := foldl_addNode (net.nodes.map (fun nd => (nd.label, roundPt round5 nd.data)))
+    ({ nMin := net.nodes.length, nTs := net.edges.length } : Ktn (Pt α))
+    (by simp only [List.map_nil, List.nil_append, List.map_map]
+        have : ((fun (x : Nat × Pt α) => x.1) ∘ fun (nd : Node (Pt α)) => (nd.label, roundPt round5 nd.data))
+            = (·.label) := by funext nd; rfl
+        rw [this, hinv.1]; exact List.nodup_range)
+  have hlabels : (([] : List (Node (Pt α))) ++ (net.nodes.map (fun nd =>
+      (nd.label, roundPt round5 nd.data))).map (fun ld => (⟨ld.1, ld.2⟩ : Node (Pt α)))).map
+      (·.label) = List.range net.nMin := by
+    simp only [List.nil_append, List.map_map]
+    exact hinv.1
+  let es' : List (Edge (Pt α)) := net.edges.map (fun e => { e with data := roundPt round5 e.data })
+  have hes : net.edges.map (fun e => (e.u, e.v, roundPt round5 e.data)) =
+      es'.map (fun e => (e.u, e.v, e.data)) := by
+    simp only [es', List.map_map]; rfl
+  have hbuild : buildNetwork net.nodes.length net.edges.length
+      (net.nodes.map (fun nd => (nd.label, roundPt round5 nd.data)))
+      (net.edges.map (fun e => (e.u, e.v, roundPt round5 e.data))) =
+      .ok { nodes := net.nodes.map (fun nd => { nd with data := roundPt round5 nd.data }),
+            edges := es', nMin := net.nodes.length, nTs := net.edges.length, pairlist := [] } := by
+    simp only [buildNetwork, hfold, hes]
+    rw [addEdges_ok]
+    · simp [List.map_map, Function.comp]
+    · intro e he
+      simp only [es', List.mem_map] at he
+      obtain ⟨e0, he0, rfl⟩ := he
+      obtain ⟨hu, hv⟩ := hinv.2.2.2 e0 he0
+      have hmem : ∀ a, a < net.nMin → a ∈ (([] : List (Node (Pt α))) ++ (net.nodes.map (fun nd =>
+          (nd.label, roundPt round5 nd.data))).map (fun ld => (⟨ld.1, ld.2⟩ : Node (Pt α)))).map
+          (·.label) := by
+        intro a ha
+        rw [hlabels]; exact List.mem_range.2 ha
+      refine ⟨?_, ?_⟩
+      · rw [hasNode_iff]; exact hmem _ hu
+      · rw [hasNode_iff]; exact hmem _ hv
+    · simp only [List.nil_append, es']
+      rw [List.pairwise_map]
+      exact hinv.2.2.1.imp (by intro a b h; exact h)
+  have l1' : load ReadSpec.repaired.minData (net.nodes.map (nodeRow round5)) = _ := l1
+  have l2' : load ReadSpec.repaired.minCoords (net.nodes.map (fun nd => coordRow nd.data)) = _ := l2
+  have l3' : load ReadSpec.repaired.tsData (net.edges.map (edgeRow round5)) = _ := l3
+  have l4' : load ReadSpec.repaired.tsCoords (net.edges.map (fun e => coordRow e.data)) = _ := l4
+  have l5' : loadPairs ReadSpec.repaired.pairlist
+      (net.pairlist.map (fun p => [Fld.int p.1, Fld.int p.2]) : Table α) = _ := l5
+  simp only [readNetwork, dumpedFiles, l1', l2', l3', l4', l5', size0, List.length_map,
+    hnodes, hedges, hbuild, toPairs_rows, bind, Except.bind, pure, Except.pure]
+  simp only [roundNet, es', hlen, hinv.2.1]
+
+theorem inv_roundNet (round5 : α → α) (net : Ktn (Pt α)) (h : Inv net) : Inv (roundNet round5 net) := by
+  obtain ⟨h1, h2, h3, h4⟩ := h
+  refine ⟨?_, ?_, ?_, ?_⟩
+  · simp only [roundNet, List.map_map]; exact h1
+  · simpa [roundNet] using h2
+  · simp only [roundNet]
+    rw [List.pairwise_map]
+    exact h3.imp (by intro a b hab; exact hab)
+  · intro e he
+    simp only [roundNet, List.mem_map] at he
+    obtain ⟨e0, he0, rfl⟩ := he
+    exact h4 e0 he0
+
 end TopSearch.IO
